@@ -7,8 +7,10 @@ META = {
     "bounds": {
         "containers": "abstract children (rows()/pack() uninterpreted); cols, rows, margins, given sizes, dividechars, min sizes: unbounded ints; "
                       "weights / percentages / child counts (<= 4) concrete per configuration",
+        "leaves": "20 bundled leaf widgets / thin decorations with catalogued parameters; every supported sizing mode, focus, and every size in 1..6 (quick) / 1..9 (thorough) "
+                  "enumerated through the solver (concrete rendering; the solver contributes exhaustiveness only)",
     },
-    "outside": ["more than 4 children per container", "TreeWidget, PopUpLauncher", "custom layouts"],
+    "outside": ["more than 4 children per container", "TreeWidget, PopUpLauncher, Terminal", "custom layouts", "leaf widgets beyond the catalogued parameter values and sizes 1..6 (quick) / 1..9 (thorough)"],
     "stubs": ["CanvasCache.fetch/store disabled", "abstract children AFlow/ABox/AFixed returning SolidCanvas of the contract size"],
     "assumptions": ["children satisfy the widget contract: render returns a canvas of the requested size, rows() >= 0, pack() >= 1"],
 }
@@ -21,7 +23,151 @@ def instances(tier):
             for focus in (False, True):
                 out.append(Instance("cont.%s.%s.%s" % (name, mode, "F" if focus else "N"), "h_container",
                                     {"key": key, "kw": kw, "mode": mode, "focus": focus}, timeout=120))
+    for kind in sorted(LEAVES):
+        out.append(Instance("leaf.%s" % kind, "h_leaf", {"kind": kind, "maxdim": 6 if tier == "quick" else 9}, timeout=600))
     return out
+
+
+# ---- bundled leaf widgets (and thin decorations of them) with concrete catalogues: parameters and sizes are enumerated through the solver
+def _leaf_progress(u, I):
+    cur = I.choice("current", [-1, 0, 1, 33, 50, 99, 100, 101])
+    done = I.choice("done", [1, 3, 100])
+    satt = I.choice("satt", [None, "s"])
+    return u.ProgressBar("n", "c", cur, done, satt)
+
+
+def _leaf_bargraph(u, I):
+    g = u.BarGraph(["bg", "1", "2"], satt=I.choice("satt", [None, {(1, 0): "1s", (2, 0): "2s"}]))
+    data = I.choice("data", [[], [(0,)], [(1,), (2,)], [(3, 1), (0, 2), (5, 5)], [(9,), (0,), (4,), (4,), (1,), (7,), (2,)]])
+    top = I.choice("top", [1, 5, 9])
+    hl = I.choice("hlines", [None, [3], [8, 4, 1]])
+    g.set_data(data, top, hl)
+    return g
+
+
+def _leaf_bigtext(u, I):
+    font = I.choice("font", [u.Thin3x3Font, u.HalfBlock5x4Font, u.Thin6x6Font, u.HalfBlock7x7Font])()
+    text = I.choice("text", ["", "1", "12:3", "a b", "\u4e2d", "x\ny"])
+    return u.BigText(text, font)
+
+
+def _leaf_divider(u, I):
+    return u.Divider(I.choice("char", [" ", "-", "\u2500"]), I.choice("top", [0, 1, 2]), I.choice("bottom", [0, 1, 3]))
+
+
+def _leaf_solidfill(u, I):
+    return u.SolidFill(I.choice("char", [" ", "#", "\u2591"]))
+
+
+def _leaf_button(u, I):
+    return u.Button(I.choice("label", ["", "ok", "a longer label", "\u4e2d\u6587", "two\nlines"]))
+
+
+def _leaf_checkbox(u, I):
+    return u.CheckBox(I.choice("label", ["", "c", "a longer label", "\u4e2d"]), state=I.choice("state", [False, True, "mixed"]), has_mixed=True)
+
+
+def _leaf_radio(u, I):
+    grp = []
+    u.RadioButton(grp, "first")
+    return u.RadioButton(grp, I.choice("label", ["", "second choice", "\u4e2d"]))
+
+
+def _leaf_icon(u, I):
+    return u.SelectableIcon(I.choice("text", ["", "i", "icon text", "\u4e2d\u6587"]), I.choice("cursor_position", [0, 1, 5]))
+
+
+def _leaf_text(u, I):
+    return u.Text(I.choice("text", ["", "t", "some words to wrap", "\u4e2d\u6587 wide", "a\n\nb"]), I.choice("align", ["left", "center", "right"]), I.choice("wrap", ["space", "any", "clip", "ellipsis"]))
+
+
+def _leaf_edit(u, I):
+    e = u.Edit(I.choice("caption", ["", "c: ", "\u4e2d"]), I.choice("text", ["", "xy", "some words to wrap"]), multiline=I.choice("multiline", [False, True]))
+    e.set_edit_pos(I.choice("pos", [0, 1, 99]))
+    return e
+
+
+def _leaf_intedit(u, I):
+    return u.IntEdit(I.choice("caption", ["", "n="]), I.choice("default", [None, 0, 12345]))
+
+
+def _leaf_linebox_text(u, I):
+    return u.LineBox(u.Text(I.choice("text", ["", "boxed", "boxed words to wrap"])), title=I.choice("title", ["", "T", "a long title"]), title_align=I.choice("title_align", ["left", "center", "right"]))
+
+
+def _leaf_attrmap(u, I):
+    return u.AttrMap(u.Text(I.choice("text", ["", "mapped text"])), "a", "f")
+
+
+def _leaf_disable(u, I):
+    return u.WidgetDisable(u.Edit("d:", I.choice("text", ["", "zz zz zz"])))
+
+
+def _leaf_placeholder(u, I):
+    return u.WidgetPlaceholder(u.Text(I.choice("text", ["", "held text here"])))
+
+
+def _leaf_vscale(u, I):
+    return u.GraphVScale(I.choice("labels", [[], [(1, "1")], [(5, "five"), (2, "2"), (9, "nine")]]), I.choice("top", [1, 5, 10]))
+
+
+def _leaf_padding_text(u, I):
+    return u.Padding(u.Text(I.choice("text", ["", "pad", "padded words"])), I.choice("align", ["left", "center", "right"]), I.choice("width", ["pack", "clip", 3, ("relative", 50)]), left=I.choice("left", [0, 1]), right=I.choice("right", [0, 2]))
+
+
+def _leaf_filler_text(u, I):
+    return u.Filler(u.Text(I.choice("text", ["", "fill", "filled words to wrap"])), I.choice("valign", ["top", "middle", "bottom"]), top=I.choice("top", [0, 1]), bottom=I.choice("bottom", [0, 1]))
+
+
+def _leaf_boxadapter(u, I):
+    return u.BoxAdapter(u.SolidFill("b"), I.choice("height", [1, 2, 5]))
+
+
+LEAVES = {"progressbar": _leaf_progress, "bargraph": _leaf_bargraph, "bigtext": _leaf_bigtext, "divider": _leaf_divider, "solidfill": _leaf_solidfill,
+          "button": _leaf_button, "checkbox": _leaf_checkbox, "radiobutton": _leaf_radio, "selectableicon": _leaf_icon, "text": _leaf_text, "edit": _leaf_edit,
+          "intedit": _leaf_intedit, "linebox_text": _leaf_linebox_text, "attrmap_text": _leaf_attrmap, "widgetdisable_edit": _leaf_disable,
+          "placeholder_text": _leaf_placeholder, "graphvscale": _leaf_vscale, "padding_text": _leaf_padding_text, "filler_text": _leaf_filler_text,
+          "boxadapter": _leaf_boxadapter}
+
+
+def h_leaf(I, kind, maxdim):
+    import urwid as u
+    from urwid.canvas import CanvasCache
+
+    w = LEAVES[kind](u, I)
+    sizing = w.sizing()
+    mode = I.choice("mode", ["box", "flow", "fixed"])
+    I.assume({"box": u.BOX, "flow": u.FLOW, "fixed": u.FIXED}[mode] in sizing)
+    focus = bool(I.bool("focus"))
+    cols = int(I.int("cols", 1, maxdim)) if mode != "fixed" else None
+    rows = int(I.int("rows", 1, maxdim)) if mode == "box" else None
+    size = {"box": (cols, rows), "flow": (cols,), "fixed": ()}[mode]
+    CanvasCache.clear()
+    if mode == "flow":
+        wrows = w.rows(size, focus)
+    packed = w.pack(size, focus)
+    canv = w.render(size, focus)
+    I.note("leaf", {"widget": repr(w)[:120], "size": size, "focus": focus, "canvas": (canv.cols(), canv.rows()), "pack": tuple(packed)})
+    content = list(canv.content())
+    I.check("content_rows_eq_rows", len(content) == canv.rows())
+    for r in content:
+        I.check("content_row_width", sum(u.str_util.calc_width(t, 0, len(t)) for _a, _c, t in r) == canv.cols())
+    if mode == "box":
+        I.check("cols", canv.cols() == cols)
+        I.check("rows", canv.rows() == rows)
+    elif mode == "flow":
+        I.check("cols", canv.cols() == cols)
+        I.check("rows_eq_rows()", canv.rows() == wrows)
+        I.check("pack_rows_eq_rows()", packed[1] == wrows)
+        I.check("pack_cols_le_cols", packed[0] <= cols)
+    else:
+        I.check("cols_eq_pack", canv.cols() == packed[0])
+        I.check("rows_eq_pack", canv.rows() == packed[1])
+    cur = canv.cursor
+    if cur is not None:
+        I.check("cursor_inside", 0 <= cur[0] < max(canv.cols(), 1) and 0 <= cur[1] < max(canv.rows(), 1))
+    if hasattr(w, "get_cursor_coords") and focus and w.selectable():
+        I.check("cursor_eq_get_cursor_coords", w.get_cursor_coords(size) == cur)
 
 
 def h_container(I, key, kw, mode, focus):
